@@ -64,6 +64,7 @@ Inductive defect :=
 | DStale       (* reallocate(0) on a shared array leaves _d dangling; copy(src) later tests `src._d == _d` *)
 | DSelfLog     (* logcopy( *this): destroy() first, contents lost *)
 | DDangling    (* counter cell of a released block touched *)
+| DRefused     (* not a defect: GivError thrown by the block allocator (no size class holds the request); see step_x *)
 | DOutOfRange. (* write / operator[] / front / back with i >= _size: outside the precondition the source documents
                   (GIVARO_ASSERT((i >=0)&&(i<(Indice_t)_size)) in givarray0.inl); no guard under NDEBUG: _d[i] = val *)
 
@@ -577,3 +578,54 @@ Definition crun (fx : fixes) (tab : list Z) (elsize : Z) (sc : state * cstate) (
   fold_left (fun sc o => fst (cstep fx tab elsize sc o)) ops sc.
 (* blocks the pool has handed out and not got back *)
 Definition outstanding (c : cstate) : nat := length (a_out (c_a c)).
+
+(* ------------------------------------------------------------------ error paths: a request the block allocator REFUSES
+   GivaroMM<T>::allocate(n) = GivMMFreeList::allocate(n*sizeof(T)) throws GivError when no size class holds n*sizeof(T) bytes:
+   cap = TabSize[511] / sizeof(T) elements is the largest request that is served.  step_x is `step` with the error path of every member
+   function that makes a request, written in the STATEMENT ORDER of givarray0.inl: what has been executed before the throwing call is
+   kept, nothing after it happens, the outcome is tagged DRefused (an exception the caller catches, not a defect of the code).
+   early = true is the order of the seeded change C17-m9 in allocate(): `_psz = _size = s;` BEFORE the request instead of last. *)
+Definition refuses (cap n : nat) : bool := Nat.ltb cap n.
+(* `if (_cnt != 0) if ( *_cnt == 1) if (_psz >= s)` (reallocate) / `if (_cnt != 0) if (( *_cnt == 1) && (_psz >= s))` (allocate): no request is made *)
+Definition in_place (s : state) (i n : nat) : bool :=
+  match h_cnt (geth s i) with Some c => (b_cnt (getb s c) =? 1)%Z && Nat.leb n (h_psz (geth s i)) | None => false end.
+
+(* void Array0<T>::allocate(size_t s)     1: in-place test, else destroy()   2: `_d = GivaroMM<T>::allocate(s)` (throws)
+                                          3: initialize, counter             4: `_psz = _size = s;` (the LAST statement) *)
+Definition allocate_x (early : bool) (cap : nat) (s : state) (i n : nat) : res :=
+  if in_place s i n || Nat.eqb n 0 || negb (refuses cap n) then allocate s i n
+  else bind (match h_cnt (geth s i) with Some _ => destroy s i | None => ret s end) (fun s0 =>
+         (* statement 2 throws: the handle holds what statement 1 left - and, in the m9 order, what statement 4 has already written *)
+         mkR (if early then seth s0 i (mkH (h_cnt (geth s0 i)) (h_d (geth s0 i)) n n) else s0) [] (Some DRefused)).
+
+(* void Array0<T>::reallocate(size_t s)   1: in-place test   2: `T* tmp = GivaroMM<T>::allocate(s);` (throws) - the first statement that
+   follows: no field, no counter and no element has been touched *)
+Definition reallocate_x (cap : nat) (fx : fixes) (s : state) (i n : nat) : res :=
+  if in_place s i n || Nat.eqb n 0 || negb (refuses cap n) then reallocate fx s i n
+  else mkR s [] (Some DRefused).
+
+Definition step_x (early : bool) (cap : nat) (fx : fixes) (s : state) (o : op) : res :=
+  match o with
+  | OAllocate h n => allocate_x early cap s h n
+  | OReallocate h n => reallocate_x cap fx s h n
+  (* push_back: `this->reallocate(_size+1); this->back() = a;` - the throw leaves before the assignment *)
+  | OPushBack h v => if in_place s h (h_size (geth s h) + 1) || negb (refuses cap (h_size (geth s h) + 1)) then step fx s o
+                     else mkR s [] (Some DRefused)
+  (* copy: `if (src._d == _d) return; reallocate(src._size);` then the element assignments *)
+  | OCopy h p => if option_nat_eqb (h_d (geth s p)) (h_d (geth s h)) then step fx s o
+                 else if in_place s h (h_size (geth s p)) || Nat.eqb (h_size (geth s p)) 0 || negb (refuses cap (h_size (geth s p))) then step fx s o
+                 else mkR s [] (Some DRefused)
+  (* reserve: `reallocate(s); reallocate(0);` - the second call is not reached *)
+  | OReserve h n => if in_place s h n || Nat.eqb n 0 || negb (refuses cap n) then step fx s o else mkR s [] (Some DRefused)
+  (* constructors (harness: `slot.~Array0(); new (&slot) Array0(...)`): the old object is destroyed, the constructor throws, no object comes to
+     life; the harness then default-constructs an empty one in the slot *)
+  | OBuild h n v => if Nat.eqb n 0 || negb (refuses cap n) then step fx s o
+                    else bind (destroy s h) (fun s1 => mkR s1 [] (Some DRefused))
+  | OWithCopy h p => if Nat.eqb h p || Nat.eqb (h_size (geth s p)) 0 || negb (refuses cap (h_size (geth s p))) then step fx s o
+                     else bind (destroy s h) (fun s1 => mkR s1 [] (Some DRefused))
+  | _ => step fx s o
+  end.
+Definition run_x (early : bool) (cap : nat) (fx : fixes) (s : state) (ops : list op) : state :=
+  fold_left (fun s o => r_s (step_x early cap fx s o)) ops s.
+Definition cstep_x (early : bool) (cap : nat) (fx : fixes) (tab : list Z) (elsize : Z) (sc : state * cstate) (o : op) : (state * cstate) * option defect :=
+  let r := step_x early cap fx (fst sc) o in ((r_s r, apply_events tab elsize (snd sc) (r_ev r)), r_df r).
